@@ -12,6 +12,7 @@
 -/
 import SSEPyVerif.Proofs.Client
 import SSEPyVerif.Generated.ClientIR
+import SSEPyVerif.Model.Commands
 namespace SSEPy.C11
 open SSEPy.ClientIR SSEPy.ServerIR
 
@@ -193,5 +194,67 @@ theorem out_of_order_example :
     (runCmds SSEPy.Generated.clientProgram {} [.key, .create 5 false, .create 5 true, .encrypt, .uploadEdb, .key, .key,
        .create 5 true, .search]).2
       = [.refused, .refused, .ok, .refused, .refused, .ok, .refused, .refused, .refused] := by decide
+
+/-! ### the command layer: services addressed by name (commands.py, service_name_handler.py) -/
+
+open SSEPy.Cmd in
+/-- a refused `create_service` (name taken, or a configuration the scheme cannot be instantiated with) changes nothing:
+    no service folder, no mapping entry -/
+theorem create_refused_unchanged (w : Cmd.World) (cfgOk : Bool) (name sid : String)
+    (h : (create w cfgOk name sid).2 = false) : (create w cfgOk name sid).1 = w := by
+  unfold create at h ⊢
+  split
+  · rfl
+  · split
+    · rfl
+    · rename_i h1 h2; simp [h1, h2] at h
+
+open SSEPy.Cmd in
+/-- an accepted `create_service` makes the name resolve to the new service -/
+theorem create_accepted_resolves (w : Cmd.World) (cfgOk : Bool) (name sid : String)
+    (h : (create w cfgOk name sid).2 = true) : resolve (create w cfgOk name sid).1 name = some sid := by
+  unfold create at h ⊢
+  split
+  · rename_i h1; simp [h1] at h
+  · split
+    · rename_i h1 h2; simp [h1, h2] at h
+    · rename_i h1 _
+      have hn : w.names.lookup name = none := by
+        cases hh : w.names.lookup name with
+        | none => rfl
+        | some v => rw [hh] at h1; simp at h1
+      simp [resolve, List.lookup_append, hn]
+
+open SSEPy.Cmd in
+/-- one `create_service`, whatever its name and outcome, never changes what an already resolvable name points to: names
+    are write-once, and compared as exact strings -/
+theorem create_keeps_names (w : Cmd.World) (cfgOk : Bool) (name sid n s : String) (h : resolve w n = some s) :
+    resolve (create w cfgOk name sid).1 n = some s := by
+  unfold create
+  split
+  · exact h
+  · split
+    · exact h
+    · simp only [resolve] at h ⊢
+      rw [List.lookup_append, h]; rfl
+
+open SSEPy.Cmd in
+/-- over ANY history of create commands a name keeps pointing to the service it was first given to — so every later
+    command addressed by that name (generate key, encrypt, upload, search) reaches the same service -/
+theorem name_write_once (w : Cmd.World) (n s : String) (h : resolve w n = some s)
+    (cmds : List (Bool × String × String)) : resolve (run w cmds) n = some s := by
+  induction cmds generalizing w with
+  | nil => exact h
+  | cons c rest ih =>
+    obtain ⟨c1, c2, c3⟩ := c
+    exact ih _ (create_keeps_names w c1 c2 c3 n s h)
+
+open SSEPy.Cmd in
+/-- non-vacuity: a second create under a taken name is refused and leaves the world as it was; a name that differs by a
+    trailing blank is another name -/
+theorem names_example :
+    let w1 := (create {} true "alice" "sid1").1
+    (create w1 true "alice" "sid2") = (w1, false) ∧ (create w1 true "alice " "sid2").2 = true ∧
+    resolve (create w1 true "alice " "sid2").1 "alice" = some "sid1" := by decide
 
 end SSEPy.C11
